@@ -99,6 +99,15 @@ pub fn run(args: &Args) {
         let ex = run_all(&mut rep, name, &dags, oracles, false, |c, _| c != "hello", |d, f| histories(d, &cuts, f));
         families.push(json!({"family": name, "universes": dags.len(), "executions": ex}));
     }
+    {
+        // the same oracles on the libc file backend (small universes)
+        let dags = universes(2, 3, 2, true);
+        let cuts = vec![Cut::None, Cut::Batch, Cut::Flush, Cut::Commit];
+        let ex = crate::props::simrun::run_all_on(&mut rep, "file", &dags, oracles, false, |c, _| c != "hello", true, |d, f| histories(d, &cuts, f));
+        rep.count("file_backend_executions", ex);
+        families.push(json!({"family": "n<=3, <=2 special commands, all histories [file backend]", "universes": dags.len(), "executions": ex}));
+    }
+    rep.require_nonzero("file_backend_executions");
     rep.require_nonzero("rejected_adds");
     rep.require_nonzero("no_such_parent");
     finish(rep, families)
